@@ -194,5 +194,5 @@ class BLOB(Element):
 
     def set_value_from_message(self, msg):
         blob_value = values.BLOB.from_base64(msg.value, msg.format)
-        assert msg.size == blob_value.size
+        assert int(msg.size) == blob_value.size
         self.set_value(blob_value)
